@@ -252,6 +252,74 @@ def run(chk):
             ok, detail = check_encoding(formula, variables, types, fanin)
             chk.ob("C01.G.gate-relation", key, ok, file=FILE, func="cnf", line=fi.node.lineno, fact=detail, expect=f"models == {{g = {t}(fan-in)}} with unique auxiliary extension")
 
+    # ---- G (wide): arities beyond exhaustive enumeration --------------------
+    # every multi-input type at fan-in 7..16: with the inputs fixed, unit propagation over the emitted clauses must determine
+    # every variable without conflict and give the gate its value - on all input vectors of weight 0, 1, 2, n-2, n-1, n and an
+    # alternating one (a dropped or doubled operand, a mis-paired parity level shows on a weight-1 vector)
+    def propagate(clauses, assign):
+        assign = dict(assign)
+        changed = True
+        while changed:
+            changed = False
+            for cl in clauses:
+                unassigned = None
+                n_un = 0
+                sat_ = False
+                for l in cl:
+                    v = assign.get(abs(l))
+                    if v is None:
+                        n_un += 1
+                        unassigned = l
+                    elif v == (l > 0):
+                        sat_ = True
+                        break
+                if sat_:
+                    continue
+                if n_un == 0:
+                    return None
+                if n_un == 1:
+                    assign[abs(unassigned)] = unassigned > 0
+                    changed = True
+        return assign
+
+    wide_arities = (7, 8, 11, 13, 16) if chk.tier == "quick" else tuple(range(7, 18))
+    for t in sorted(MULTI_FANIN):
+        for k in wide_arities:
+            ins = [f"i{j}" for j in range(k)]
+            spec = {i_: ("input", []) for i_ in ins}
+            spec["g"] = (t, ins)
+            r, types, fanin = encode(spec)
+            n_eval += 1
+            key = f"cnf::{t}{k}"
+            if r[0] != "return":
+                chk.ob("C01.G.wide-gate", key, False, file=FILE, func="cnf", line=fi.node.lineno, fact={"raises": str(r)[:100]})
+                continue
+            formula, variables = r[1]
+            ids = dict(variables._ids)
+            top = max([variables.top] + [abs(l) for c_ in formula.clauses for l in c_])
+            vecs = [[False] * k, [True] * k, [bool(j % 2) for j in range(k)]]
+            for j in range(k):
+                for base in (False, True):
+                    v_ = [base] * k
+                    v_[j] = not base
+                    vecs.append(list(v_))
+                    v_[(j + 3) % k] = not base
+                    vecs.append(list(v_))
+            prob = None
+            for vec in vecs:
+                res = propagate(formula.clauses, {ids[i_]: b_ for i_, b_ in zip(ins, vec)})
+                want = bool_gate(t, vec)
+                if res is None:
+                    prob = {"problem": "the clauses are contradictory under an input vector", "ones": [i_ for i_, b_ in zip(ins, vec) if b_]}
+                elif len(res) < top:
+                    prob = {"problem": "unit propagation leaves variables undetermined (an operand or a level of the encoding is not tied in)", "ones": [i_ for i_, b_ in zip(ins, vec) if b_], "undetermined": top - len(res)}
+                elif res[ids["g"]] != want:
+                    prob = {"problem": "the gate variable takes the wrong value", "ones": [i_ for i_, b_ in zip(ins, vec) if b_], "value": res[ids["g"]], "expected": want}
+                if prob:
+                    break
+            chk.ob("C01.G.wide-gate", key, prob is None, file=FILE, func="cnf", line=fi.node.lineno, fact=prob or {"vectors": len(vecs), "variables": top, "clauses": len(formula.clauses)},
+                   expect=f"g = {t}(fan-in) on every probed input vector, all variables determined by propagation")
+
     # ---- M: multi-gate models -----------------------------------------
     multi = {
         "shared-parity-fanin": {"a": ("input", []), "b": ("input", []), "c": ("input", []), "d": ("input", []),
@@ -282,6 +350,9 @@ def run(chk):
         cyclic[f"self-loop-{t}2"] = {"a": I_, "g": (t, ["g", "a"]), "o": ("buf", ["g"])}
         cyclic[f"self-loop-{t}3"] = {"a": I_, "b": I_, "g": (t, ["a", "g", "b"])}
         cyclic[f"self-loop-{t}1"] = {"g": (t, ["g"]), "a": I_, "o": ("and", ["g", "a"])}
+    cyclic["ring-of-two-buffers"] = {"a": I_, "g0": ("buf", ["g1"]), "g1": ("buf", ["g0"]), "o": ("and", ["g0", "a"])}
+    cyclic["ring-of-three-buffers"] = {"g0": ("buf", ["g2"]), "g1": ("buf", ["g0"]), "g2": ("buf", ["g1"])}
+    cyclic["buffer-ring-through-a-blackbox-input-pin"] = {"a": I_, "u.d": ("bb_input", ["w"]), "w": ("buf", ["u.d"]), "o": ("xor", ["w", "a"])}
     cyclic["self-loop-not"] = {"g": ("not", ["g"])}
     cyclic["self-loop-buf"] = {"g": ("buf", ["g"]), "a": I_, "o": ("xor", ["g", "a"])}
     cyclic["nor-latch"] = {"s": I_, "r": I_, "q": ("nor", ["r", "qn"]), "qn": ("nor", ["s", "q"])}
